@@ -260,6 +260,8 @@ static void prop(Tape &t, Ctx &c) {
             return;
         }
         int cv = t.coin() ? TLS11 : TLS12; uint8_t sm = (uint8_t) (1 + t.below(7)); std::vector<int> sset = pick_set(sm);
+        // the application may list its versions in any order (the list order is a priority, not a statement about which is the latest)
+        for (size_t j = sset.size(); j > 1; j--) if (t.coin()) std::swap(sset[j - 1], sset[t.below(j)]);
         std::string desc = fmt("B: identity=%s client version=%s +FALLBACK_SCSV server versions=[%s]", ec ? "EC" : "RSA", ver_name(cv), setstr(sset).c_str());
         c.sample(desc); if (c.verbose) fprintf(stderr, "case: %s\n", desc.c_str());
         Pair p; Config cc, sc; cc.client = true; sc.client = false; cc.versions = { cv }; sc.versions = sset; cc.auth = sc.auth = auth; cc.entropy_stream = 1; sc.entropy_stream = 2;
